@@ -23,6 +23,13 @@ def _is_key(x, dsk):
     return False
 
 
+class _Value:
+    """an already computed value bound to a key of an inner (fused) graph"""
+
+    def __init__(self, v):
+        self.v = v
+
+
 class Runner:
     def __init__(self, dsk, kernels=None):
         self.dsk = dsk
@@ -90,12 +97,29 @@ class Runner:
             if t.klass not in (list, tuple):
                 raise core.Unsupported(f"nested container {t.klass.__name__} in a task")
             return t.klass(self._eval(a, key) for a in t.args)
+        if isinstance(t, _Value):
+            return t.v
         if isinstance(t, Alias):
             return self.get(t.target.key if hasattr(t.target, "key") else t.target, key)
         if isinstance(t, TaskRef):
             return self.get(t.key, key)
         if isinstance(t, DataNode):
             return t.value
+        if isinstance(t, Task) and getattr(t.func, "__name__", "") == "_execute_subgraph":
+            # Task.fuse: an inner graph executed with the external dependencies bound to its input keys
+            inner, outkey, inkeys = t.args[0], t.args[1], t.args[2]
+            if isinstance(inner, NestedContainer):
+                inner = dict(inner.args) if inner.klass is dict else inner
+            if not isinstance(inner, dict):
+                raise core.Unsupported("fused task with an unexpected inner graph container")
+            deps = [self._eval(a, key) for a in t.args[3:]]
+            sub = dict(inner)
+            for k, v in zip(inkeys, deps):
+                sub[k] = _Value(v)
+            r = Runner(sub, self.kernels)
+            out = r.get(outkey)
+            self.refs.extend((key, b) for (_a, b) in r.refs if b in dict(zip(inkeys, deps)))
+            return out
         if isinstance(t, Task):
             args = [self._eval(a, key) for a in t.args]
             kwargs = {k: self._eval(v, key) for k, v in t.kwargs.items()}
